@@ -220,7 +220,8 @@ def run_case(ctx, i, rng, rlog):
 def run_clash(ctx, i, rng):
   from flax import errors
   from vf.gen import linen_prog as LP
-  kind = LP.CLASH_KINDS[i % 3]
+  kinds = LP.CLASH_KINDS + LP.LEGAL_SAME_NAME
+  kind = kinds[i % len(kinds)]
   spec = LP.gen_program(rng, max_nodes=3, depth=1, styles=['compact'], observe=False, rng_ops=False)
   node = spec['root']
   ops = list(node[2])
@@ -237,7 +238,10 @@ def run_clash(ctx, i, rng):
     except errors.NameInUseError as e:
       raised = e
     ctx.op('init(name clash)')
-    ctx.check(raised is not None, 'clash:not_rejected:' + kind, lambda: dict(case=desc))
+    if kind in LP.LEGAL_SAME_NAME:
+      ctx.check(raised is None, 'clash:legal_same_name_rejected:' + kind, lambda: dict(case=desc))
+    else:
+      ctx.check(raised is not None, 'clash:not_rejected:' + kind, lambda: dict(case=desc))
 
 
 def run(ctx):
@@ -245,5 +249,5 @@ def run(ctx):
   n = 280 if ctx.tier == 'quick' else 4500
   for i in ctx.indices(n, 'case'):
     run_case(ctx, i, ctx.rng('case', i), rlog)
-  for i in ctx.indices(36 if ctx.tier == 'quick' else 300, 'clash'):
+  for i in ctx.indices(64 if ctx.tier == 'quick' else 400, 'clash'):
     run_clash(ctx, i, ctx.rng('clash', i))
